@@ -52,6 +52,37 @@ def cases(draw):
                 hspeed=draw(st.sampled_from([0.0, 0.4, 0.9])), steps=draw(st.integers(1, 4)))
 
 
+@st.composite
+def roms_cases(draw):
+    """The same quantifier through the stock ROMS grid: bathymetry from a file, any legal subgrid."""
+    case = draw(cases())
+    jm = draw(st.integers(9, 16))
+    im = draw(st.integers(9, 16))
+    sub = None
+    if draw(st.sampled_from([True, True, False])):
+        i0 = draw(st.integers(1, im - 7))
+        i1 = draw(st.integers(i0 + 6, im - 1))
+        j0 = draw(st.integers(1, jm - 7))
+        j1 = draw(st.integers(j0 + 6, jm - 1))
+        sub = [i0, i1, j0, j1]
+    case.update(jm=jm, im=im, sub=sub, hkind=draw(st.sampled_from(["noise", "eta_slope", "xi_slope"])))
+    return case
+
+
+def ref_depth(H, X, Y):
+    """Depth of the particle's own cell from the full-grid bathymetry; both neighbours when exactly on an edge.
+
+    Returns (lowest candidate, highest candidate) per particle."""
+    from vlib import roms
+
+    lo = np.empty(len(X))
+    hi = np.empty(len(X))
+    for k in range(len(X)):
+        c = [H[j, i] for i in roms.cell_candidates(X[k]) for j in roms.cell_candidates(Y[k])]
+        lo[k], hi[k] = min(c), max(c)
+    return lo, hi
+
+
 def oracle(case) -> core.CaseResult:
     from ladim.state import State
     from ladim.tracker import Tracker
@@ -70,13 +101,37 @@ def oracle(case) -> core.CaseResult:
     dx = 200.0
     n = case["n"]
     dt = case["dt"]
-    X = rng.uniform(1.6, im - 2.6, n)
-    Y = rng.uniform(1.6, jm - 2.6, n)
+    stock = "hkind" in case
+    if stock:
+        from ladim.ROMS import Grid
+
+        from vlib import roms
+
+        jj, ii = np.mgrid[0:jm, 0:im]
+        if case["hkind"] == "eta_slope" and hmax > hmin:
+            H = hmin + (hmax - hmin) * jj / (jm - 1.0)
+        elif case["hkind"] == "xi_slope" and hmax > hmin:
+            H = hmin + (hmax - hmin) * ii / (im - 1.0)
+        G = roms.make_grid(jm, im, N=2, h=H, mask="none", dx=dx, seed=case["seed"])
+        with e2e.workdir() as d:
+            roms.write_roms(d / "g.nc", G, [], np.zeros((0, 2, jm, im - 1)), np.zeros((0, 2, jm - 1, im)))
+            gkw = {"filename": str(d / "g.nc")}
+            if case["sub"]:
+                gkw["subgrid"] = list(case["sub"])
+            grid = Grid(**gkw)
+        i0, i1, j0, j1 = case["sub"] or [1, im - 1, 1, jm - 1]
+        # one cell inside the valid region (i0 + 0.5, i1 - 1.5) so that a step of < 1 cell stays in the grid
+        xlo, xhi, ylo, yhi = i0 + 1.6, i1 - 2.6, j0 + 1.6, j1 - 2.6
+        res.cls("stock_grid_subgrid_i0_ne_j0" if case["sub"] and i0 != j0 else "stock_grid")
+    else:
+        xlo, xhi, ylo, yhi = 1.6, im - 2.6, 1.6, jm - 2.6
+        grid = HGrid(H, dx)
+    X = rng.uniform(xlo, xhi, n)
+    Y = rng.uniform(ylo, yhi, n)
     k3 = n // 4
     X[:k3] = np.floor(X[:k3]) + 0.5          # on cell boundaries
-    X[:k3] = np.clip(X[:k3], 1.6, im - 2.6)
-    grid = HGrid(H, dx)
-    h0 = grid.depth(X, Y)
+    X[:k3] = np.clip(X[:k3], xlo, xhi)
+    h0 = ref_depth(H, X, Y)[0]
     Z = rng.uniform(0, 1, n) * h0
     Z[0::5] = 0.0
     Z[1::5] = h0[1::5]
@@ -114,7 +169,9 @@ def oracle(case) -> core.CaseResult:
     for step in range(case["steps"]):
         alive = np.array(state.alive)
         X0, Y0, Z0 = np.array(state.X), np.array(state.Y), np.array(state.Z)
-        hstart = grid.depth(X0, Y0)
+        # bottom depth of the start cell from the generated bathymetry itself (not from the grid object under
+        # test); for a particle exactly on a cell edge either neighbour is "its" cell: hlow <= h <= hstart
+        hlow, hstart = ref_depth(H, X0, Y0)
         try:
             tr.update()
         except BaseException as e:  # noqa: BLE001
@@ -130,7 +187,7 @@ def oracle(case) -> core.CaseResult:
             continue
         # quantifier: start depths in [0, h]; a particle carried into a shallower cell by an earlier
         # step may start below that cell's bottom and is then not judged
-        premise = (Z0 >= 0) & (Z0 <= hstart)
+        premise = (Z0 >= 0) & (Z0 <= hlow) & np.array(state.alive)
         bad = premise & ~(np.isfinite(Z1) & (Z1 >= 0) & (Z1 <= hstart))
         if bad.any():
             k = int(np.nonzero(bad)[0][0])
@@ -146,23 +203,32 @@ def oracle(case) -> core.CaseResult:
         if case["vadv"] and not kw.get("vertdiff"):
             # deterministic: reflected value is known exactly
             want = np.where(unref < 0, -unref, unref)
-            want = np.where(want > hstart, 2 * hstart - want, want)
-            res.check(np.allclose(Z1[premise], want[premise], rtol=1e-12, atol=1e-12 * float(hstart.max())), "reflection_value",
-                      f"step {step}: depth after advection differs from the reflected value: {Z1[:4]} vs {want[:4]}")
+            ok = np.zeros(n, bool)
+            for hc in (hstart, hlow):
+                w2 = np.where(want > hc, 2 * hc - want, want)
+                ok |= np.isclose(Z1, w2, rtol=1e-12, atol=1e-12 * float(hstart.max()))
+            bad2 = premise & ~ok
+            if bad2.any():
+                k = int(np.nonzero(bad2)[0][0])
+                res.fail("reflection_value",
+                         f"step {step} particle {k} at ({X0[k]}, {Y0[k]}): Z {Z0[k]} + w*dt {W[k] * dt} -> {Z1[k]}, expected "
+                         f"the value reflected at 0 and h = {hstart[k]}: {np.where(want > hstart, 2 * hstart - want, want)[k]}")
     if kw.get("vertdiff") or case["vadv"]:
         res.nontrivial = nontriv
     return res
 
 
-def shard(n, seed, known):
+def shard(part, n, seed, known):
     stt = core.Stats()
-    core.drive("column", cases(), oracle, n, seed, stt, known)
+    core.drive(part, cases() if part == "column" else roms_cases(), oracle, n, seed, stt, known)
     return stt
 
 
 def run(ctx):
-    jobs = [(k, core.subseed(ctx.seed, "z", i), ctx.known_sigs)
-            for i, k in enumerate(core.split(ctx.n(1600, 50000), 16))]
+    jobs = [("column", k, core.subseed(ctx.seed, "z", i), ctx.known_sigs)
+            for i, k in enumerate(core.split(ctx.n(1600, 50000), 8))]
+    jobs += [("stock", k, core.subseed(ctx.seed, "s", i), ctx.known_sigs)
+             for i, k in enumerate(core.split(ctx.n(1600, 40000), 8))]
     stats = core.Stats()
     for s in core.pmap(shard, jobs):
         stats.merge(s)
@@ -171,9 +237,13 @@ def run(ctx):
               "depths incl. exactly 0 and h, vertical diffusion and/or advection sized so that |w|dt + 6.5*sqrt(2 Dz dt) "
               "< min depth, all horizontal schemes with horizontal flow into other cells, 1-4 steps; "
               "oracle 0 <= Z' <= h(start cell), bitwise unchanged when both are off; non-trivial = an unreflected depth "
-              "outside [0, h], a cell change, or >= 4 particles starting exactly on a boundary with diffusion on"),
+              "outside [0, h], a cell change, or >= 4 particles starting exactly on a boundary with diffusion on; "
+              "part 'stock' repeats this with the stock ROMS Grid built from a generated file (random / eta-sloping / "
+              "xi-sloping bathymetry, legal subgrids with i0 != j0) while the reference depth is read from the generated "
+              "bathymetry itself"),
         assumptions=["premise 'displacement smaller than the depth' enforced with a 6.5 sigma margin on the random part",
-                     "plug-in grid with nearest-cell depth"],
+                     "part column: plug-in grid with nearest-cell depth; part stock: ladim.ROMS.Grid; a particle exactly "
+                     "on a cell edge may be given either neighbouring cell"],
     )
 
 
